@@ -23,7 +23,8 @@ META = {
             'fractions are non-negative, sum to one and do not depend on the median; after rosin_rammler_fit / log_normal_fit the '
             '95th percentile is <= d_max, the median is unchanged when it already satisfies the cap and is never increased; a phase '
             'with zero flow gives median 0 / no d_max in sintef, li_etal, wang_etal and the empty distribution in ModelBase for every '
-            'model/pdf choice; sintef evaluates no zero denominator with one phase absent; the legacy truncation conserves the '
+            'model/pdf choice; with one phase absent and the other flowing sintef, li_etal (incl. li_etal_d50) and wang_etal evaluate no operation outside its '
+            'domain — the definedness predicate is the model itself elaborated at a domain-tracking Num instance, not a separate list; the legacy truncation conserves the '
             'total mass flux; li_etal evaluates no zero denominator for zero flow of either or both phases and ModelBase '
             'wang_etal + rosin-rammler yields the converted Rosin-Rammler distribution (both found defective by this check and repaired '
             'in /repo: 9f1b754, 99832ec). Negation proved by witness where the code still falsifies the property: li_etal never applies '
@@ -33,8 +34,11 @@ META = {
     'note': 'Trusted: Lean kernel + 3 standard axioms; the hand transcription Model/Psf.lean (tied by correspondence only, no '
             'translator); real arithmetic for IEEE doubles (normalisation and the cap hold to rounding on the code: compared at 1e-12 / '
             '1e-9); scipy fsolve/minimize (psf.grace, sintef_d50) and the methane EOS are oracles of the model (recorded from the real '
-            'run, residual of the fsolve root checked); numpy.logspace modelled from its source. wang_etal is proved for the zero-flow '
-            'clause only, not for absence of zero denominators.',
+            'run, residual of the fsolve root checked); numpy.logspace modelled from its source. The clause "after fitting, the 95th-percentile size never '
+            'exceeds the maximum stable size" is read as a statement about the FITTED PARAMETERS (properties.jsonl observe_at: "(d50, k, alpha) / '
+            '(d50, sigma) returned by the fit functions"): d95 is the analytic 95 % point of the fitted Rosin-Rammler / log-normal law. It is not '
+            'demanded of the binned (de, vf) output (bins span the 1 %..99.5 % points, so the largest bin centres exceed d_max; counted) nor of '
+            'psf.sintef(use_d95=False), the documented switch that turns the rule off (there the promised cap on the median is checked).',
     'technique': 'Lean 4 proofs (induction on the bin count, rpow/exp/log monotonicity) + differential execution of the model against the real code',
 }
 GEN = []
@@ -77,13 +81,34 @@ def fl(v):
 
 
 def tamoc_site(e):
-    """(file, function) of the innermost tamoc frame of an exception — the stable part of a violation key"""
+    """(file, function, line number, source line) of the innermost tamoc frame of an exception"""
     tb = traceback.extract_tb(e.__traceback__)
     for fr in reversed(tb):
         if os.sep + 'tamoc' + os.sep in fr.filename:
-            return os.path.basename(fr.filename), fr.name, fr.lineno
+            return os.path.basename(fr.filename), fr.name, fr.lineno, (fr.line or '')
     fr = tb[-1]
-    return os.path.basename(fr.filename), fr.name, fr.lineno
+    return os.path.basename(fr.filename), fr.name, fr.lineno, (fr.line or '')
+
+
+def slug(msg):
+    return ''.join(c if c.isalnum() else '-' for c in str(msg).lower()).strip('-')[:40]
+
+
+def exc_key(e, mg, mo):
+    """violation key of an exception raised by the real code = its exact failure signature:
+    [no-flow:]<exception>:<tamoc function>:<mechanism>.  Mechanisms recognised (everything else is `other:<message>`):
+      void-fraction-0/0   ZeroDivisionError on the line n = q_gas / (q_gas + q_oil) (resp. Qg / (Qg + Ql)) with neither phase flowing
+      log-of-zero-median  'divide by zero encountered in log' inside rr2ln / ln2rr while one phase has zero flow (d50 = 0 is converted)"""
+    _f, func, _l, line = tamoc_site(e)
+    pre = 'no-flow:' if (mg == 0 and mo == 0) else ''
+    if isinstance(e, ZeroDivisionError) and mg == 0 and mo == 0 and ('/ (q_gas + q_oil)' in line or '/ (Qg + Ql)' in line):
+        sig = 'void-fraction-0/0'
+    elif (isinstance(e, FloatingPointError) and func in ('rr2ln', 'ln2rr') and 'divide by zero encountered in log' in str(e)
+          and (mg == 0) != (mo == 0)):
+        sig = 'log-of-zero-median'
+    else:
+        sig = 'other:' + slug(e)
+    return '%s%s:%s:%s' % (pre, type(e).__name__, func, sig)
 
 
 def dist_predicates(ctx, kind, de, vf, nbins, case, tag=''):
@@ -141,6 +166,8 @@ def run(ctx, lean_ok):
         return ok
 
     K05 = math.log(0.5)
+    RESID_TOL = 1e-6          # |residual(dp)| <= 1e-6 dp  (fsolve's xtol is 1.5e-8 relative; d residual / d dp is about 1)
+    resid = {'n': 0, 'bad': []}
 
     def rnd_d50():
         return r.choice([1e-6, 1e-1, 10 ** r.uniform(-6, -1), 10 ** r.uniform(-6, -1), 10 ** r.uniform(-4, -2)])
@@ -243,6 +270,12 @@ def run(ctx, lean_ok):
                     ctx.violation('rosin_rammler_fit:median-changed', 'median changed although it already satisfied the cap', dict(case, got=f))
                 if not f[0] <= d50 * (1 + 1e-12):
                     ctx.violation('rosin_rammler_fit:median-increased', 'the fit increased the median', dict(case, got=f))
+            if dmax is not None and d95_before > dmax and i % 10 == 0:
+                # NOT demanded (the cap clause is about the fitted parameters, see META): where does the 95 % point of the BINNED output lie?
+                de_b, vf_b = psf.rosin_rammler(10, f[0], f[1], f[2])
+                cum = np.cumsum(vf_b)
+                d_q = float(de_b[int(np.searchsorted(cum, 0.95 - 1e-12))])
+                ctx.count('binned output (10 bins) after a capped fit: bin holding the 95 %% point %s d_max (counted only)' % ('<=' if d_q <= dmax else '>'))
             if f[1] != K05 or f[2] != alpha:
                 ctx.violation('rosin_rammler_fit:parameters', 'k or alpha not returned as documented', dict(case, got=f))
             ask(req('Psf.rr_fit', d50, 0 if dmax is None else 1, 0.0 if dmax is None else dmax, alpha),
@@ -319,7 +352,7 @@ def run(ctx, lean_ok):
 
     # ================= recorders (oracles of the model) ========================================
     memo = {}
-    _grace, _sd50, _dens = psf.grace, psf.sintef_d50, dbm.FluidMixture.density
+    _grace, _sd50, _dens, _lid50 = psf.grace, psf.sintef_d50, dbm.FluidMixture.density, psf.li_etal_d50
     rec = {}
 
     def grace_rec(*a, **k):
@@ -334,6 +367,18 @@ def run(ctx, lean_ok):
         rec['dp'] = float(v) / float(d0)
         return v
 
+    def lid50_rec(*a, **k):
+        v = _lid50(*a, **k)
+        rec.setdefault('li_d50', []).append(float(v))
+        return v
+
+    def li_key():
+        # exact signature of the recorded finding: the median returned IS the raw Li et al. correlation value (fit called with None)
+        return 'd95-exceeds-dmax:li_etal:uncapped-median'
+
+    def li_cap_key(d50):
+        return li_key() if any(close(float(d50), raw, 1e-12) for raw in rec.get('li_d50', [])) else 'd95-exceeds-dmax:li_etal:other'
+
     def dens_rec(self, m, T_, P_):
         v = _dens(self, m, T_, P_)
         rec.setdefault('ch4', []).append(float(v[0, 0]))
@@ -342,25 +387,31 @@ def run(ctx, lean_ok):
     class Patched:
         def __enter__(self):
             rec.clear()
-            psf.grace, psf.sintef_d50, dbm.FluidMixture.density = grace_rec, sd50_rec, dens_rec
+            psf.grace, psf.sintef_d50, dbm.FluidMixture.density, psf.li_etal_d50 = grace_rec, sd50_rec, dens_rec, lid50_rec
 
         def __exit__(self, *a):
-            psf.grace, psf.sintef_d50, dbm.FluidMixture.density = _grace, _sd50, _dens
+            psf.grace, psf.sintef_d50, dbm.FluidMixture.density, psf.li_etal_d50 = _grace, _sd50, _dens, _lid50
 
-    def call(f, *a, **k):
-        """run the real code under errstate(raise); returns (result, exception, result without errstate)"""
+    known_keys = set(kf['key'] for kf in common.load_known() if kf['property'] == 'C16')
+
+    def call(f, mg, mo):
+        """run the real code under errstate(raise); returns (result, exception, result without errstate).  The second run
+        (errstate ignore, to evaluate the remaining clauses on what the code returns in normal use) is made ONLY when the
+        failure is a recorded known finding; any other failure is reported and the case is not evaluated further"""
         with Patched():
             try:
                 with np.errstate(**ERR):
-                    return quiet(f, *a, **k), None, None
+                    return quiet(f), None, None
             except (FloatingPointError, ZeroDivisionError) as e:
                 exc = e
             except Exception as e:
                 return None, e, None
+        if exc_key(exc, mg, mo) not in known_keys:
+            return None, exc, None
         with Patched():
             try:
                 with np.errstate(all='ignore'):
-                    return None, exc, quiet(f, *a, **k)
+                    return None, exc, quiet(f)
             except Exception:
                 return None, exc, None
 
@@ -374,13 +425,9 @@ def run(ctx, lean_ok):
     def rnd_flux(pzero):
         return 0.0 if r.random() < pzero else 10 ** r.uniform(-4, 3.5)
 
-    def fp_violation(site, e, case):
-        # key = exception type + the tamoc function that raised it (same root cause -> same key, whatever the entry point);
-        # prefix `no-flow:` when neither phase flows
-        fname, func, lineno = tamoc_site(e)
-        pre = 'no-flow:' if site.endswith('-no-flow') else ''
-        ctx.violation('%s%s:%s' % (pre, type(e).__name__, func),
-                      'called through %s: %s raised in %s:%s (l.%d) — %s' % (site, type(e).__name__, fname, func, lineno, e), case)
+    def fp_violation(site, e, case, mg, mo):
+        fname, func, lineno, _line = tamoc_site(e)
+        ctx.violation(exc_key(e, mg, mo), 'called through %s: %s raised in %s:%s (l.%d) — %s' % (site, type(e).__name__, fname, func, lineno, e), case)
 
     def opt(x):
         return None if x is None else float(x)
@@ -406,10 +453,10 @@ def run(ctx, lean_ok):
             case = dict(p, model='sintef', d0=d0, m_gas=mgv, m_oil=mov, fp_type=fp, use_d95=use95)
             ctx.count('sintef fp=%d flows: %s' % (fp, flows))
             ctx.nontrivial.add(('sintef',) + key12(d0, mgv, mov, fp, use95, p['rho_oil'], p['rho_gas']))
-            res, exc, res2 = call(psf.sintef, d0, np.array(mgv), p['rho_gas'], np.array(mov), p['rho_oil'], mu_p, sg, p['rho'], p['mu'],
-                                  fp_type=fp, use_d95=use95)
+            res, exc, res2 = call(lambda: psf.sintef(d0, np.array(mgv), p['rho_gas'], np.array(mov), p['rho_oil'], mu_p, sg, p['rho'], p['mu'],
+                                                     fp_type=fp, use_d95=use95), mg, mo)
             if exc is not None:
-                fp_violation('sintef' if flows != 'none' else 'sintef-no-flow', exc, case)
+                fp_violation('psf.sintef', exc, case, mg, mo)
                 res = res2
             if res is None:
                 continue
@@ -422,23 +469,33 @@ def run(ctx, lean_ok):
                     ctx.violation('sintef:median-not-positive', 'sintef: flowing phase without a positive median / d_max', dict(case, got=[d50, dm]))
                 elif use95 and not d50 * (math.log(0.05) / k) ** (1. / al) <= dm * (1 + 1e-9):
                     ctx.violation('d95-exceeds-dmax:sintef', 'sintef: 95th percentile exceeds the maximum stable size', dict(case, got=[d50, dm, k, al]))
+                elif not use95:
+                    # use_d95=False is the documented switch that turns the d95 rule OFF ("True means to use the rule"); what the
+                    # option promises instead (sintef.modified_We_model: "the lesser of the estimated particle size or the maximum
+                    # stable particle size") is the cap on the MEDIAN
+                    ctx.count('sintef use_d95=False: d95 %s d_max (rule switched off by the caller; not demanded)'
+                              % ('<=' if d50 * (math.log(0.05) / k) ** (1. / al) <= dm else '>'))
+                    if not d50 <= dm * (1 + 1e-12):
+                        ctx.violation('sintef:use_d95-false:median-exceeds-dmax', 'sintef(use_d95=False): the median exceeds the maximum stable size', dict(case, got=[d50, dm]))
             grace_v, dp_v = rec.get('grace', 0.0), rec.get('dp', 0.0)
 
             def cb(o, d50=d50, dm=dm, k=k, al=al, case=case, dp_v=dp_v, q_req=q_req):
                 corr('Model.Psf.sintef vs psf.sintef', [o[0], o[2] if o[1] == 1 else -1.0, o[3], o[4]], [d50, dm if dm is not None else -1.0, k, al], case)
                 if q_req > 0 and o[5] > 350. and dp_v > 0:
-                    # the oracle is what fsolve returned: check that it IS a root of the modified-Weber-number equation
-                    resid = dp_v - 24.8 * (o[5] / (1. + 0.08 * o[6] * dp_v ** (1. / 3.))) ** (-3. / 5.)
-                    ctx.count('sintef_d50 fsolve root residual %s' % ('<= 1e-6 dp' if abs(resid) <= 1e-6 * dp_v else '> 1e-6 dp (solver contract not met)'))
+                    # the oracle is what fsolve returned: it must BE a root of the modified Weber number equation
+                    # (residual evaluated by the model, Psf.sintefResidual, at Float)
+                    resid['n'] += 1
+                    if not abs(o[8]) <= RESID_TOL * dp_v:
+                        resid['bad'].append(dict(case, We=o[5], Vi=o[6], dp=dp_v, residual=o[8]))
             ask(req('Psf.sintef', grace_v, dp_v, d0, mgv, p['rho_gas'], mov, p['rho_oil'], mu_p, sg, p['rho'], p['mu'], fp, 1 if use95 else 0), cb)
         elif which == 1:
             mu_p, sg = (p['mu_gas'], p['sigma_gas']) if fp == 0 else (p['mu_oil'], p['sigma_oil'])
             case = dict(p, model='li_etal', d0=d0, m_gas=mgv, m_oil=mov, fp_type=fp)
             ctx.count('li_etal fp=%d flows: %s' % (fp, flows))
             ctx.nontrivial.add(('li',) + key12(d0, mgv, mov, fp, p['rho_oil'], p['rho_gas']))
-            res, exc, res2 = call(psf.li_etal, d0, np.array(mgv), p['rho_gas'], np.array(mov), p['rho_oil'], mu_p, sg, p['rho'], p['mu'], fp_type=fp)
+            res, exc, res2 = call(lambda: psf.li_etal(d0, np.array(mgv), p['rho_gas'], np.array(mov), p['rho_oil'], mu_p, sg, p['rho'], p['mu'], fp_type=fp), mg, mo)
             if exc is not None:
-                fp_violation('li_etal' if flows != 'none' else 'li_etal-no-flow', exc, case)
+                fp_violation('psf.li_etal', exc, case, mg, mo)
                 res = res2
             if res is None:
                 continue
@@ -450,7 +507,7 @@ def run(ctx, lean_ok):
                 if not (d50 > 0 and dm is not None and dm > 0 and math.isfinite(d50)):
                     ctx.violation('li_etal:median-not-positive', 'li_etal: flowing phase without a positive median / d_max', dict(case, got=[d50, dm]))
                 elif not d50 * (math.log(0.05) / k) ** (1. / al) <= dm * (1 + 1e-9):
-                    ctx.violation('d95-exceeds-dmax:li_etal', 'li_etal: 95th percentile of the fitted distribution exceeds the maximum stable size (the d95 rule is never applied)',
+                    ctx.violation(li_cap_key(d50), 'li_etal: 95th percentile of the fitted distribution exceeds the maximum stable size (the d95 rule is never applied)',
                                   dict(case, got=[d50, dm, k, al], d95=d50 * (math.log(0.05) / k) ** (1. / al)))
             if True:        # since fix 9f1b754 li_etal is defined (empty parameters) with neither phase flowing, too
                 ask(req('Psf.li_etal', rec.get('grace', 0.0), d0, mgv, p['rho_gas'], mov, p['rho_oil'], mu_p, sg, p['rho'], p['mu'], fp),
@@ -461,10 +518,10 @@ def run(ctx, lean_ok):
             case = dict(p, model='wang_etal', d0=d0, m_gas=mgv, m_oil=mov, P=Pj)
             ctx.count('wang_etal flows: %s' % flows)
             ctx.nontrivial.add(('wang',) + key12(d0, mgv, mov, Pj, p['rho_oil'], p['rho_gas']))
-            res, exc, res2 = call(psf.wang_etal, d0, np.array(mgv), p['rho_gas'], p['mu_gas'], p['sigma_gas'], p['rho'], p['mu'],
-                                  m_l=np.array(mov), rho_l=p['rho_oil'], P=Pj, T=288.15)
+            res, exc, res2 = call(lambda: psf.wang_etal(d0, np.array(mgv), p['rho_gas'], p['mu_gas'], p['sigma_gas'], p['rho'], p['mu'],
+                                                        m_l=np.array(mov), rho_l=p['rho_oil'], P=Pj, T=288.15), mg, mo)
             if exc is not None:
-                fp_violation('wang_etal' if flows != 'none' else 'wang_etal-no-flow', exc, case)
+                fp_violation('psf.wang_etal', exc, case, mg, mo)
                 res = res2
             if res is None:
                 continue
@@ -512,19 +569,19 @@ def run(ctx, lean_ok):
             mb.simulate(d0, mg, mo, model_gas, model_oil, pdf_gas, pdf_oil, Pj, 288.15)
             out = mb.get_distributions(nbg, nbo)
             return mb, out
-        res, exc, res2 = call(go)
+        res, exc, res2 = call(go, mg, mo)
         raised_attr = False
         if exc is not None:
             if isinstance(exc, (FloatingPointError, ZeroDivisionError)):
-                fp_violation('ModelBase', exc, case)
+                fp_violation('ModelBase.simulate/get_distributions', exc, case, mg, mo)
                 res = res2
             elif isinstance(exc, AttributeError) and model_gas == 'wang_etal' and pdf_gas == 'rosin-rammler':
                 raised_attr = True
-                fname, func, lineno = tamoc_site(exc)
+                fname, func, lineno, _ln = tamoc_site(exc)
                 ctx.violation('AttributeError:wang_etal+rosin-rammler', 'ModelBase.simulate(model_gas=wang_etal, pdf_gas=rosin-rammler) stores the shape '
                               'parameter in sigma_gas; get_distributions raises %s (%s l.%d): no gas distribution is produced' % (exc, fname, lineno), case)
             else:
-                fname, func, lineno = tamoc_site(exc)
+                fname, func, lineno, _ln = tamoc_site(exc)
                 ctx.violation('ModelBase:raises:%s:%s' % (type(exc).__name__, func), 'ModelBase raised %s: %s (%s l.%d)' % (type(exc).__name__, exc, fname, lineno), case)
         grace_v, dp_v, ch4 = rec.get('grace', 0.0), rec.get('dp', 0.0), rec.get('ch4', [0.0, 1.0])
         mgi, pgi = MG.index(model_gas), PD.index(pdf_gas)
@@ -546,7 +603,7 @@ def run(ctx, lean_ok):
                 else:
                     d95 = math.exp(math.log(mb.d50_oil) + 1.6449 * mb.sigma_ln_oil)
                 if not d95 <= mb.de_max_oil * (1 + 1e-9):
-                    ctx.violation('d95-exceeds-dmax:' + model_oil, 'ModelBase: 95th percentile of the oil distribution exceeds the maximum stable size',
+                    ctx.violation(li_cap_key(mb.d50_oil) if model_oil == 'li_etal' else 'd95-exceeds-dmax:' + model_oil, 'ModelBase: 95th percentile of the oil distribution exceeds the maximum stable size',
                                   dict(case, d50=float(mb.d50_oil), d95=float(d95), de_max=float(mb.de_max_oil)))
             if mg > 0:
                 if pdf_gas == 'rosin-rammler':
@@ -554,7 +611,7 @@ def run(ctx, lean_ok):
                 else:
                     d95 = math.exp(math.log(mb.d50_gas) + 1.6449 * mb.sigma_ln_gas)
                 if not d95 <= mb.de_max_gas * (1 + 1e-9):
-                    ctx.violation('d95-exceeds-dmax:' + model_gas, 'ModelBase: 95th percentile of the gas distribution exceeds the maximum stable size',
+                    ctx.violation(li_cap_key(mb.d50_gas) if model_gas == 'li_etal' else 'd95-exceeds-dmax:' + model_gas, 'ModelBase: 95th percentile of the gas distribution exceeds the maximum stable size',
                                   dict(case, d50=float(mb.d50_gas), d95=float(d95), de_max=float(mb.de_max_gas)))
             ask(req('Psf.mb_gas', grace_v, ch4[0], ch4[1], mgi, pgi, nbg, d0, mg, mo, p['rho_gas'], p['mu_gas'], p['sigma_gas'], p['rho_oil'], p['rho'], p['mu'], Pj),
                 lambda o, de=fl(de_g), vf=fl(vf_g), case=case: (corr('Model.Psf.mbGas vs ModelBase (gas) de', o[1] if o[0] == 1 else None, de, case, tol=1e-10),
@@ -580,5 +637,10 @@ def run(ctx, lean_ok):
             cb(o)
         ctx.oblige('correspondence Model.Psf.* == psf / particle_size_models / sintef on %d driver requests (rel %g; ModelBase and wang_etal 1e-10)'
                    % (len(lines), TOL['gen_vs_source']), bad['n'] == 0, '%d disagreements' % bad['n'])
+    if out is not None:
+        ctx.oblige('oracle contract: the %d fsolve roots handed to the model satisfy the modified Weber number equation, |residual| <= %g dp'
+                   % (resid['n'], RESID_TOL), not resid['bad'], repr(resid['bad'][:2]))
+        for b in resid['bad'][:3]:
+            ctx.broken.append(('oracle', 'sintef_d50 fsolve root', repr(b)))
     ctx.notes.append('worst relative model-vs-code differences: %r' % {k: float('%.3g' % v) for k, v in sorted(worst.items())})
     ctx.notes.append('psf.grace evaluated for %d distinct property sets (memoised: it is a pure function of its arguments)' % len(memo))
